@@ -21,8 +21,13 @@ RULE = ("Each case = one configuration (corpus module, algorithm in {DYNAMOSA, M
         "SimClock and the time-driven scheduler (so neither wall time nor thread timing can differ). Oracle: exported "
         "test file bytes, the digest of every RNG draw, and the per-iteration event digest are identical. On a "
         "mismatch both runs are repeated with full draw logs and the first divergent draw with its call sites is "
-        "reported. Non-trivial = the run drew > 200 random numbers and exported a non-empty file; distinct = distinct "
-        "(configuration, draw digest).")
+        "reported. When the three agree, a FOURTH replica runs the configuration on a machine that is 10-60x slower "
+        "(every simulated cost scaled: RNG draw, execution, traced line); with iteration budgets the result must be "
+        "the same, unless a wall-time budget legitimately bound in either run (a test hit its execution timeout, a "
+        "local-search phase used up its own time budget, both detected by probes): then the configuration is "
+        "inconclusive. Modules: the six general corpus modules and gallery (custom exception classes, enums, "
+        "__all__); no_xfail on/off; MIO with up to 40 iterations. Non-trivial = the run drew > 200 random numbers and "
+        "exported a non-empty file; distinct = distinct (configuration, draw digest).")
 ASSUMPTIONS = [
     "iteration-bounded budgets only (the property is stated for iteration/execution budgets)",
     "address-space layout (ASLR) is left on; only the string hash seed is varied explicitly",
@@ -32,8 +37,8 @@ STUBS = ["time module (SimClock)", "randomness.RNG object (same algorithm, recor
 MANIFEST = {
     "engine": "E1-pipeline",
     "technique": "deterministic simulation replicas: the same seeded run executed in fresh interpreters under different "
-                 "PYTHONHASHSEED with clock and scheduling simulated; replica agreement on output bytes and RNG draw "
-                 "history; first divergent draw localised as the minimised trace",
+                 "PYTHONHASHSEED and on a simulated machine of another speed, clock and scheduling simulated; replica "
+                 "agreement on output bytes and RNG draw history; first divergent draw localised as the minimised trace",
     "text": "Seeded exploration over configurations; each configuration is executed by three replicas that may differ "
             "only in string-hash randomisation; any disagreement in exported bytes or in the recorded RNG history is "
             "a violation, reported with the first divergent draw and both call stacks.",
@@ -45,13 +50,14 @@ BUDGET = {
     "thorough": {"runs": 900, "wall": 1700},
 }
 _ALGOS = ["DYNAMOSA", "DYNAMOSA", "MOSA", "MIO", "WHOLE_SUITE", "RANDOM"]
+_MODULES = ["tiny", "words", "shapes", "floats", "zoo", "plain", "gallery", "gallery"]
 _RUNNER = str(simkit.VERIF / "simcheck" / "e1_runner.py")
 
 
 def gen_case(run_seed: int, tier: str) -> dict:
     st = Streams(run_seed)
     r, k = st.get("ops"), st.get("knobs")
-    case = gen_base_case(run_seed, r, k, algorithms=_ALGOS)
+    case = gen_base_case(run_seed, r, k, algorithms=_ALGOS, modules=_MODULES)
     kn = case["knobs"]
     kn["iterations"] = k.choice([3, 5, 8])
     kn["assertions"] = k.choice(["NONE", "SIMPLE", "MUTATION_ANALYSIS"])
@@ -59,11 +65,17 @@ def gen_case(run_seed: int, tier: str) -> dict:
     kn["local_search"] = k.random() < 0.3
     kn["max_mutants"] = 12
     case["hashseeds"] = [k.randrange(1, 4000), k.randrange(4001, 9000)]
+    kn["no_xfail"] = k.random() < 0.4
+    if kn["local_search"]:
+        kn["local_search_time_ms"] = k.choice([300, 5000, 5000])
+    if case["algorithm"] == "MIO":
+        kn["iterations"] = k.choice([8, 20, 40])
+    case["slow_factor"] = k.choice([10, 25, 60])
     return case
 
 
-def _run_replica(case: dict, hashseed: int, log_draws: bool = False) -> dict:
-    c = dict(case, log_draws=log_draws)
+def _run_replica(case: dict, hashseed: int, log_draws: bool = False, **override) -> dict:
+    c = dict(case, log_draws=log_draws, **override)
     with tempfile.NamedTemporaryFile("w", suffix=".json", delete=False) as f:
         json.dump(c, f)
         path = f.name
@@ -96,12 +108,40 @@ def _check_config(case: dict) -> dict:
     cross_differs = any(reps[0][k] != reps[1][k] for k in keys)
     if reps[0]["digest"] != reps[1]["digest"]:
         out["sut_hash_dependent"] = True  # e.g. the SUT iterates over a set literal passed by a test
-    if not (same_seed_differs or cross_differs):
+    speed_differs = False
+    slow = None
+    if not (same_seed_differs or cross_differs) and case.get("slow_factor") and not os.environ.get("VERIF_C16_NO_SLOW"):
+        # fourth replica: the same interpreter settings on a machine that is slow_factor times slower (every
+        # simulated cost scaled).  With iteration budgets only, the speed of the machine must not matter - unless a
+        # wall-time budget legitimately bound (a test hit its execution timeout, a local-search phase used up its
+        # own time budget): such configurations are inconclusive, not violations.
+        slow = _run_replica(case, a, speed=case["slow_factor"])
+        if "error" in slow:
+            return {"status": "error", "error": slow["error"], "run_seed": case["run_seed"]}
+        out["sim_ns"] += slow["sim_ns"]
+        out["slow_replica"] = True
+
+        def ls_bound(rep):
+            return rep.get("probes", {}).get("local_search_phase_used_up_its_own_budget", 0) > 0
+
+        # an execution timeout that one machine saw and the other did not, for the same test code
+        f_to, f_ok = set(reps[0].get("timeout_codes", [])), set(reps[0].get("ok_codes", []))
+        s_to, s_ok = set(slow.get("timeout_codes", [])), set(slow.get("ok_codes", []))
+        speed_induced_timeout = bool((s_to & f_ok) | (f_to & s_ok))
+        if any(reps[0][k] != slow[k] for k in keys):
+            if speed_induced_timeout or ls_bound(reps[0]) or ls_bound(slow):
+                out["inconclusive_speed"] = True
+            else:
+                speed_differs = True
+    if not (same_seed_differs or cross_differs or speed_differs):
         return out
     # localise: rerun with full draw logs and full event history
     c2 = dict(case, return_hist=True)
     l0 = _run_replica(c2, a, log_draws=True)
-    l1 = _run_replica(c2, a if same_seed_differs else b, log_draws=True)
+    if speed_differs:
+        l1 = _run_replica(c2, a, log_draws=True, speed=case["slow_factor"])
+    else:
+        l1 = _run_replica(c2, a if same_seed_differs else b, log_draws=True)
     # Is the divergence explained by the module under test itself behaving differently under the other hash
     # seed (identical test code, different execution result, before any test code differs)?  Then the module
     # is not deterministic in the sense of the property and the configuration is inconclusive, not a violation.
@@ -109,7 +149,7 @@ def _check_config(case: dict) -> dict:
     ex1 = [e for e in l1.get("hist", []) if e[0] in ("exec", "res")]
     for x, y in zip(ex0, ex1):
         if x != y:
-            if x[0] == "res" and not same_seed_differs:
+            if x[0] == "res" and not same_seed_differs and not speed_differs:
                 out["inconclusive"] = f"execution #{x[1]}: identical test code, different result under the other hash seed"
                 out["sut_hash_dependent"] = True
                 return out
@@ -129,11 +169,15 @@ def _check_config(case: dict) -> dict:
         fb = first["replica_b"]
         sites = sorted({x[0].rsplit(":", 1)[0] for x in (fa, fb) if isinstance(x, list) and len(x) >= 3})
         site = "diverge@" + "+".join(sites) if sites else "draw-count"
-    kind = "same-hashseed" if same_seed_differs else "hashseed"
+    kind = "machine-speed" if speed_differs else ("same-hashseed" if same_seed_differs else "hashseed")
     out["status"] = "violation"
     out["violation"] = {
         "signature": f"{kind}:{site}",
-        "message": f"{case['module']}/{case['algorithm']} seed={case['seed']}: replicas under PYTHONHASHSEED "
+        "message": (f"{case['module']}/{case['algorithm']} seed={case['seed']}: the same run on a machine "
+                    f"{case['slow_factor']}x slower (no execution timeout, no local-search phase out of its own budget) "
+                    f"gives another result ({[k for k in keys if reps[0][k] != slow[k]]}); first divergent draw: {first}")
+        if speed_differs else
+                   f"{case['module']}/{case['algorithm']} seed={case['seed']}: replicas under PYTHONHASHSEED "
                    f"{a} and {a if same_seed_differs else b} disagree "
                    f"({[k for k in keys if reps[0][k] != reps[2 if same_seed_differs else 1][k]]}); "
                    f"first divergent draw: {first}",
@@ -198,9 +242,11 @@ def main(tier: str, seed: int, replay: str | None, runs: int | None) -> int:
         "rule": RULE,
         "samples": [r["sample"] for r in results[:3]] or [{"note": "none"}],
         "runs_per_hour": int(len(results) * 3 / max(wall_s, 1e-6) * 3600),
-        "interpreters_started": len(results) * 3,
+        "interpreters_started": len(results) * 3 + sum(1 for r in results if r.get("slow_replica")),
         "sim_seconds_covered": round(sum(r.get("sim_ns", 0) for r in results) / 1e9, 2),
-        "fault_counts": {"different_PYTHONHASHSEED_replica": len(results), "same_PYTHONHASHSEED_replica": len(results)},
+        "fault_counts": {"different_PYTHONHASHSEED_replica": len(results), "same_PYTHONHASHSEED_replica": len(results),
+                         "slow_machine_replica": sum(1 for r in results if r.get("slow_replica"))},
+        "inconclusive_time_budget_bound_under_other_speed": sum(1 for r in results if r.get("inconclusive_speed")),
         "inconclusive_sut_depends_on_hash_seed": sum(1 for r in results if r.get("inconclusive")),
         "configurations_where_sut_execution_differed_by_hash_seed": sum(1 for r in results if r.get("sut_hash_dependent")),
         "probe_counts": {"total_rng_draws_first_replica": sum(r.get("draws", 0) for r in results)},
